@@ -33,7 +33,7 @@ EncJudge == /\ ph = "enc" /\ e.out # "run"
                         \o (IF C.enc_out \notin {"ok", "budget"} THEN <<"encode-raises">> ELSE <<>>)
                         \o (IF C.enc_out = "ok" /\ C.strand # e.strand THEN <<"strand">> ELSE <<>>)
                         \o (IF C.enc_out = "ok" /\ C.vt # chk THEN <<"check">> ELSE <<>>)
-                        \o (IF C.enc_out = "ok" /\ (C.dec_out # "ok" \/ C.decoded # C.msg) THEN <<"round-trip">> ELSE <<>>)
+                        \o (IF C.enc_out = "ok" /\ C.dec_out # "none" /\ (C.dec_out # "ok" \/ C.decoded # C.msg) THEN <<"round-trip">> ELSE <<>>)
                         \o (IF C.enc_out = "ok" /\ C.strand # <<>> /\ ~IsWalk(LiveC, NC, C.start, C.strand) THEN <<"not-a-walk">> ELSE <<>>)
                IN verdict' = v /\ Emit(v)
             /\ ph' = "end" /\ UNCHANGED <<cid, e, d>>
